@@ -758,6 +758,50 @@ async fn cookie_binding_family(report: &mut Report) {
     direct.stop.cancel();
 }
 
+/// PROXY protocol is not configured: the effective client address is the TCP peer, whatever the
+/// client writes in front of its handshake. A PROXY header there is a direct client's text - bytes
+/// that are no Minecraft frame - and not an announcement anybody asked for.
+async fn unrequested_header_family(report: &mut Report) {
+    let direct = start_direct(DirectSpec { timeout: Duration::from_secs(3), secret: Some(b"direct-clients-only".to_vec()), ..Default::default() }).await;
+    let addr = direct.addr;
+    let claimed_source: SocketAddr = "203.0.113.77:40000".parse().expect("addr");
+    for (name, header) in [("v1", tcp::proxy_v1(claimed_source, addr)), ("v2", tcp::proxy_v2(claimed_source, addr)), ("v1-unknown", b"PROXY UNKNOWN\r\n".to_vec()), ("v2-local", tcp::proxy_v2_local())] {
+        let calls_before = direct.rec.calls().len();
+        let Ok(end) = TcpEnd::connect(addr, None).await else {
+            report.inconclusive("unrequested header: connect failed");
+            continue;
+        };
+        end.send(&header);
+        let log = Client::new(&end, scripts::plan(scripts::status_script("direct.example.org", 25565, 7), true, [3u8; 16], Duration::from_secs(4))).run().await;
+        let got = end.bytes_received();
+        end.kill();
+        let seen: Vec<String> = direct
+            .rec
+            .calls()
+            .into_iter()
+            .skip(calls_before)
+            .filter_map(|c| match &c.call {
+                Call::Status { ctx } | Call::Authenticate { ctx, .. } | Call::Filter { ctx, .. } | Call::Select { ctx, .. } => Some(ctx.client_addr.to_string()),
+                _ => None,
+            })
+            .collect();
+        report.eval(Some(&format!("unrequested-header/{name}")));
+        report.count("connections that sent a PROXY header to a listener without PROXY protocol", 1);
+        let detail = json!({"header": name, "bytes_received": got, "clientbound": log.names(), "client_addresses_seen_by_services": seen});
+        if name == "v1" {
+            report.sample(json!({"case": "PROXY header sent although the protocol is off", "observed": detail}));
+        }
+        if log.count("StatusResponse") > 0 || !seen.is_empty() {
+            report.violation(
+                &format!("proxy-header-honoured-although-protocol-is-off/{name}"),
+                &format!("a listener without PROXY protocol served a connection that began with a {name} PROXY header (services saw the client as {seen:?}): a direct client chooses the address cookies and limits are checked against"),
+                detail,
+            );
+        }
+    }
+    direct.stop.cancel();
+}
+
 pub async fn run(cli: &Cli, report: &mut Report) {
     let seqs = generate(cli);
     let futs: Vec<_> = seqs.iter().map(run_seq).collect();
@@ -790,6 +834,7 @@ pub async fn run(cli: &Cli, report: &mut Report) {
     }
     config_wiring(report).await;
     config_file_wiring(report).await;
+    unrequested_header_family(report).await;
     if cli.prop == "C15" {
         cookie_binding_family(report).await;
         crate::c08net::run(cli, report).await;
